@@ -21,17 +21,27 @@ func ZZ_C19_Escape() {
 	zzverif.Reach("escaped")
 	back := Unescape(esc)
 	// Known finding at the pinned commit: meta characters that are not printable after
-	// Demeta (0x80-0x9F, 0xAD) are written as "\M-\x%2x", which Unescape cannot read back.
+	// Demeta (0x80-0x9F, 0xAD, 0xFF) are written as "\M-\x%2x", which Unescape cannot read back.
 	// Sequences containing one of them are asserted under their own label so that any other
 	// failing sequence is still reported.
 	metaNonPrint := false
 	for _, r := range rs {
-		if (r >= 0x80 && r <= 0x9f) || r == 0xad {
+		if (r >= 0x80 && r <= 0x9f) || r == 0xad || r == 0xff {
 			metaNonPrint = true
+		}
+	}
+	// Second known finding: C-\ (0x1c) is written as "\C-\" with a bare backslash, so the
+	// text that follows can be read as part of an escape ("\C-\M-" is the control-meta prefix).
+	ctrlBackslash := false
+	for _, r := range rs {
+		if r == 0x1c || r == 0xdc {
+			ctrlBackslash = true
 		}
 	}
 	if metaNonPrint {
 		zzverif.Assert(back == s, "roundtrip-meta-nonprintable")
+	} else if ctrlBackslash {
+		zzverif.Assert(back == s, "roundtrip-control-backslash")
 	} else {
 		zzverif.Assert(back == s, "roundtrip")
 	}
